@@ -796,6 +796,45 @@ func (w *World) DisputeStory(o HistOpts) {
 	}
 }
 
+// LongDepositStory: an UNTIPPED bridge deposit report opens a round with the fixed 2000-block window.  The story really
+// runs those blocks (empty) and reports again at the last block of the window, in the block after the round has
+// aggregated (a fresh round), and - for a tipped deposit whose short window ran out without a report - after expiry
+// (same round re-opened): the re-opening branches of the deposit path.
+func (w *World) LongDepositStory(o HistOpts, ops []*Actor) {
+	sec := time.Second
+	id := uint64(1 + w.pick(8))
+	dep := fmt.Sprintf("dep%d", id)
+	val := DepositValue(w.user().Addr.String(), new(big.Int).Mul(big.NewInt(int64(1+w.pick(5000))), big.NewInt(1e12)), big.NewInt(0))
+	if !w.block(o, 2*sec, func() { w.Submit(ops[0], dep, val) }) {
+		return
+	}
+	qid := utils.QueryIDFromData(w.QData[dep])
+	q, err := w.App.OracleKeeper.CurrentQuery(w.Ctx, qid)
+	if err != nil {
+		return
+	}
+	left := int(int64(q.Expiration) - w.Height - 1)
+	if left < 0 || left > 2100 {
+		return
+	}
+	if !w.EmptyBlocks(left, 2*sec) {
+		return
+	}
+	// last block of the window: still accepted; the round aggregates in this block
+	w.block(o, 2*sec, func() { w.Submit(ops[1%len(ops)], dep, val) })
+	// the block after: no round any more - a fresh one is opened
+	w.block(o, 2*sec, func() { w.Submit(ops[0], dep, val) })
+	// a tipped deposit round (short window from the registry) that nobody reports in time, reported after expiry
+	id2 := uint64(1 + w.pick(8))
+	if id2 != id {
+		dep2 := fmt.Sprintf("dep%d", id2)
+		w.block(o, 2*sec, func() { w.Tip(w.user(), dep2, 1_000_000) })
+		w.EmptyBlocks(4, 2*sec)
+		w.block(o, 2*sec, func() { w.Submit(ops[0], dep2, val) })
+		w.EmptyBlocks(4, 2*sec)
+	}
+}
+
 // BridgeStory: deposits reported (power around the 2/3 threshold), claimed around the 12 h age boundary,
 // repeated and batched claims, flagging by dispute before/after, and withdrawals.
 func (w *World) BridgeStory(o HistOpts) {
@@ -817,6 +856,9 @@ func (w *World) BridgeStory(o HistOpts) {
 		setup = append(setup, func() { w.CreateReporter(a, sdkmath.LegacyZeroDec(), 1_000_000) })
 	}
 	w.block(o, 2*sec, setup...)
+	if w.pick(25) == 0 {
+		w.LongDepositStory(o, ops)
+	}
 	id := w.NextDep
 	w.NextDep++
 	if id > 8 {
